@@ -256,6 +256,41 @@ def argcover_rule(R, prefix, only=None):
                         % "; ".join(q.src(r)[:50] for r in rets if r.value is not call))
     R.need(n >= 1, "no get_args_tuple site for %s" % (only,))
     varargs_safe_helper(R, prefix)
+    # KEY-PURE: building a key must not change state shared between calls (the defaults dict, the names list)
+    MUT = ("update", "setdefault", "pop", "popitem", "clear", "append", "extend", "insert", "remove", "sort", "reverse", "__setitem__")
+    checked = set()
+    for f, call in sites:
+        top = f
+        while top.parent is not None:
+            top = top.parent
+        if only is not None and top.name not in only:
+            continue
+        for g in [f] + list(normaliser_helpers(R).values()):
+            if g.qualname in checked:
+                continue
+            checked.add(g.qualname)
+            if g.name in ("decorator", "cache_fun"):
+                continue
+            local = set(q.param_names(g.node)) | set(n.id for n in q.scope_nodes(g.node) if isinstance(n, ast.Name) and isinstance(n.ctx, ast.Store))
+            bad = []
+            for n in q.scope_nodes(g.node):
+                if isinstance(n, ast.Call) and q.attr_call(n)[1] in MUT:
+                    base = q.dotted(q.attr_call(n)[0])
+                    if base and base.split(".")[0] not in local:
+                        bad.append(q.src(n)[:50])
+                if isinstance(n, ast.Subscript) and isinstance(n.ctx, (ast.Store, ast.Del)):
+                    base = q.dotted(n.value)
+                    if base and base.split(".")[0] not in local:
+                        bad.append(q.src(n)[:50])
+            # mutating a parameter that aliases shared state (kwargs_defaults passed in) counts as well
+            for n in q.scope_nodes(g.node):
+                if isinstance(n, ast.Call) and q.attr_call(n)[1] in MUT:
+                    base = q.dotted(q.attr_call(n)[0])
+                    if base in q.param_names(g.node) and g.parent is None:
+                        bad.append(q.src(n)[:50])
+            R.check(not bad, prefix + ".KEY-PURE", g.qualname, R.site(g),
+                    "%s builds the key without mutating state shared between calls" % g.name,
+                    "%s mutates state shared between calls (%s): one call's arguments leak into the keys of later calls" % (g.name, "; ".join(bad)))
 
 
 def cache_body_rules(R, prefix, wrapper_fi, cache_expr_pred, what):
